@@ -965,6 +965,7 @@ val bc_wf_why : z -> bool -> bprog -> z
 type rop =
 | REnter
 | RMov of z
+| RMovJ of z
 | RMovU of z
 | RGet of z
 | RSet of z * z
@@ -979,6 +980,8 @@ val r_get : rtape -> z -> z tres
 val r_set : rtape -> z -> z -> rtape tres
 
 val r_probe : policy -> z -> z -> bool -> rtape -> z -> rtape tres
+
+val r_probe_jit : policy -> z -> z -> bool -> rtape -> z -> rtape tres
 
 val r_run :
   policy -> z -> z -> rop list -> bool list -> rtape -> (robs list * rtape)
